@@ -80,7 +80,10 @@ def _gjk(collider1, collider2, simplex, max_iterations):
             return True, simplex
         elif gjk_state == GjkState.NO_CONTACT:
             return False, simplex
-        elif abs(np.dot(search_direction, search_direction)) < EPSILON:
+        elif np.dot(search_direction, search_direction) == 0.0:
+            # The search direction is a product of up to three simplex
+            # vectors, its squared length scales with the 6th power of the
+            # size of the colliders. Only a vanishing direction is degenerate.
             return False, simplex
 
     return False, simplex
